@@ -230,7 +230,12 @@ String File::directory() const
 
 Long File::size() const
 {
-	if(!_info)
+	if(_file) // open: count what was written through this object, and do not trust a size cached earlier
+	{
+		fflush(_file);
+		_info = getFileInfo(_path);
+	}
+	else if(!_info)
 		_info = getFileInfo(_path);
 	return _info.size;
 }
@@ -276,6 +281,7 @@ bool File::setLastModified(const Date& t)
 
 ByteArray File::content()
 {
+	_info.clear(); // the file may have changed since its size was cached
 	return firstBytes((int)size());
 }
 
